@@ -22,3 +22,6 @@ Definition model_forward_try_from (u : ublist) : rs (option ublist) :=
     [trim(buf, kind, d)] of src/cut_str.rs is not translated: the model's [trim_lit] stands for it (hybrid). *)
 Definition memchr_iter (d : byte) (buf : bytes) : list Z := map Z.of_nat (positions_from d 0 buf).
 Definition model_trim (buf : bytes) (k : trimk) (d : byte) : rs bytes := Ret (trim_lit k [d] buf).
+
+(** src/stream.rs: struct ForwardBounds { list, last_bound_idx } *)
+Record gfb := mkFB { fb_list : ublist; fb_last : Z }.
